@@ -5,8 +5,26 @@ import common
 import machine
 
 ID = "C03"
-LEAN_MODULES = ["QProps.C03"]
-THEOREMS = []
+LEAN_MODULES = ["QProps.C03", "QProps.C03x"]
+THEOREMS = [
+    "MM.fail_restores",
+    "MM.fail_restores_cell",
+    "MM.fail_restores_ham",
+    "MM.reject_restores",
+    "MM.reject_restores_cell",
+    "MM.reject_restores_ham",
+    "MM.reject_restores_exchange",
+    "MM.inv_validate",
+    "MM.inv_trial",
+    "MM.history_restores",
+    "MM.plain_two_deletions_not_restored",
+    "MM.reinsert_delete",
+    "MM.delete_after_insert",
+    "MM.remapFixed_beyond",
+    "MM.posOnly_restore",
+    "MM.stripOnly_restore",
+    "MM.auxOnly_restore",
+]
 RULE = ("histories of scripted trials on real Canonical/HamiltonianCanonical/Isobaric/Isotension/GrandCanonical "
         "objects over real Atoms with tags, momenta, charges, custom arrays and FixAtoms; move trees over "
         "Displacement/Exchange/Cell/Hamiltonian/user moves incl. composites and repeated objects; a case is "
@@ -63,7 +81,7 @@ class Histories(common.Suite):
     ensembles = ENSEMBLES
 
     def cases(self, rng, tier):
-        n = 260 if tier == "quick" else 6000
+        n = 1400 if tier == "quick" else 20000
         for i in range(n):
             ens = self.ensembles[i % len(self.ensembles)]
             yield machine.gen_case(rng, ens, tier)
